@@ -92,14 +92,15 @@ LEMON_ASSUME = 'lemon::NetworkSimplex modelled by its contract: run() returns OP
 EIGEN_ASSUME = 'Eigen conjugate gradient modelled by its contract: returns an arbitrary vector of finite floats of the right size'
 P['C19'] = dict(
   design_ref='DESIGN.md section 3 C19',
-  level_text='Solver-checked on the real code: ColoquinteParameters(effort) for EVERY 32-bit effort outside 1..9 (symbolic) throws and no UB trap (table index, assert) fires first; efforts 1..9 construct parameters that pass check(); every Circuit setter with every wrong length throws and writes nothing (object write-protected); addNet/setNets refuse any out-of-range pin cell index (symbolic over the whole int range) and inconsistent lengths with an exception; a parameter set rejected by the check makes legalize/placeDetailed/placeGlobal throw with the circuit (public state) write-protected.',
-  text=dict(bounds=dict(quick='effort: all 2^32 values; setters: 10 setters x lengths 0..4 on a 2-cell circuit; pin indices: all ints; 8 rejected fields x 3 stages', thorough='same'),
-            outside='parameter fields other than the 8 sampled rejected ones; combinations of several rejected fields'),
+  level_text='Solver-checked on the real code: ColoquinteParameters(effort) for EVERY 32-bit effort outside 1..9 (symbolic) throws and no UB trap (table index, assert) fires first; efforts 1..9 construct parameters that pass check(); every Circuit setter with every wrong length throws and writes nothing (object write-protected); addNet/setNets refuse any out-of-range pin cell index (symbolic over the whole int range) and inconsistent lengths with an exception; setNets accepts arbitrary symbolic net limits only if they start at 0, do not decrease and end at the number of pins; the window parameters of the rough legalization (three sizes and three overlaps, all symbolic, in combination) are accepted only inside their documented ranges with a positive stride for every enabled pass, and every set inside the ranges is accepted; a parameter set rejected by the check makes legalize/placeDetailed/placeGlobal throw with the circuit (public state) write-protected.',
+  text=dict(bounds=dict(quick='effort: all 2^32 values; setters: 10 setters x lengths 0..4 on a 2-cell circuit; pin indices: all ints; net limits: 3 symbolic limits in [-2,5] over 2 or 3 pins; window parameters: 6 symbolic ints in [-3,70]; 8 rejected fields x 3 stages', thorough='same'),
+            outside='parameter fields other than the window parameters and the 8 sampled rejected ones; combinations of several rejected fields of other groups'),
   assumptions=STD_ASSUME + ['libm (exp/log/pow/round) evaluated natively on concrete arguments'],
   harnesses=[
     dict(name='H19A', src='C19_invalid.cpp', covers=['end'], defines={'VCAP': 6, 'H19A': None}, cfg=dict(fp='exact'), ir_srcs=ALL_IR, native_srcs=ALL_IR, native_flags=['-llemon']),
     dict(name='H19B', src='C19_invalid.cpp', covers=['end'], defines={'VCAP': 6, 'H19B': None}, cfg=dict(fp='exact'), ir_srcs=ALL_IR, native_srcs=ALL_IR, native_flags=['-llemon']),
     dict(name='H19C', src='C19_invalid.cpp', covers=['end'], defines={'VCAP': 6, 'H19C': None}, cfg=dict(fp='exact'), ir_srcs=ALL_IR, native_srcs=ALL_IR, native_flags=['-llemon']),
+    dict(name='H19E', src='C19_invalid.cpp', covers=['end'], defines={'VCAP': 6, 'H19E': None}, cfg=dict(fp='exact'), ir_srcs=ALL_IR, native_srcs=ALL_IR, native_flags=['-llemon']),
     dict(name='H19D', src='C19_invalid.cpp', covers=['end'], defines={'VCAP': 6, 'H19D': None}, cfg=dict(fp='exact'), ir_srcs=ALL_IR, native_srcs=ALL_IR, native_flags=['-llemon']),
   ])
 
@@ -192,14 +193,15 @@ P['C11'] = dict(
 
 P['C16'] = dict(
   design_ref='DESIGN.md section 3 C16',
-  level_text='Solver-checked on the real density grid code: (A) DensityGrid(binSize, regions) for symbolic disjoint regions: bin limits span and tile the bounding box, every bin capacity equals the free area inside the bin (independent overlap oracle), the bins account for all free area. (R) one DensityLegalizer::reoptimize step on an arbitrary group of bins (square, line, zig-zag; groups without any capacity included) from an arbitrary distribution of the cells, all float costs unconstrained: every cell stays in exactly one bin and check() passes; (RO) the same step directed into over-full windows (more demand than the window holds: the capacity-increase path of the transportation problem). (B) HierarchicalDensityPlacement under every sequence of up to N operations from {refineX, refineY, coarsenX, coarsenY, redistribution between adjacent bins}: its own check() asserts hold, capacity aggregates exactly, every cell of non-zero (symbolic) demand is in exactly one bin, zero-demand cells in none, the cell-to-bin map is consistent.',
-  text=dict(bounds=dict(quick='A: <=2 row regions of height 8 at y in {0,8,16} (a vertical gap is possible) with symbolic x extents in [-30,30], bin size 4 or 7, <=3x3 bins; R/RO: 6x2 bins with a zero-capacity block, 3 cells of symbolic demand 1..30; B: grids 1..4 x 1..2 bins, 3 cells with symbolic demand, 3 operations', thorough='B: 4 operations'),
-            outside='the float claim that spread coordinates lie inside the bin is declined: the linear error model cannot close it (reported as not proved, harness H16S kept in the source for reference); whole rough-legalization runs only in the thorough tier (H16C, time-bounded); margin clipping of fromIspdCircuit; larger grids'),
+  level_text='Solver-checked on the real density grid code: (A) DensityGrid(binSize, regions) for symbolic disjoint regions: bin limits span and tile the bounding box, every bin capacity equals the free area inside the bin (independent overlap oracle), the bins account for all free area. (R) one DensityLegalizer::reoptimize step on an arbitrary group of bins (square, line, zig-zag; groups without any capacity included) from an arbitrary distribution of the cells, all float costs unconstrained: every cell stays in exactly one bin and check() passes; (F) DensityGrid::fromIspdCircuit on rows cut by two fixed macros at symbolic places: the bins account exactly for the free row area after the side margin and no bin is negative; (RO) the same step directed into over-full windows (more demand than the window holds: the capacity-increase path of the transportation problem). (B) HierarchicalDensityPlacement under every sequence of up to N operations from {refineX, refineY, coarsenX, coarsenY, redistribution between adjacent bins}: its own check() asserts hold, capacity aggregates exactly, every cell of non-zero (symbolic) demand is in exactly one bin, zero-demand cells in none, the cell-to-bin map is consistent.',
+  text=dict(bounds=dict(quick='A: <=2 row regions of height 8 at y in {0,8,16} (a vertical gap is possible) with symbolic x extents in [-30,30], bin size 4 or 7, <=3x3 bins; F: 1 or 2 rows of width 70, macros of width 1..12 and 6 at symbolic x, margin 5, bin size 10; R/RO: 6x2 bins with a zero-capacity block, 3 cells of symbolic demand 1..30; B: grids 1..4 x 1..2 bins, 3 cells with symbolic demand, 3 operations', thorough='B: 4 operations'),
+            outside='the float claim that spread coordinates lie inside the bin is declined: the linear error model cannot close it (reported as not proved, harness H16S kept in the source for reference); whole rough-legalization runs only in the thorough tier (H16C, time-bounded); larger grids'),
   assumptions=STD_ASSUME + ['regions (rows) are pairwise disjoint'],
   harnesses=[
     dict(name='H16A', src='C16_density.cpp', covers=['grid built', 'end'], defines={'VCAP': 8, 'H16A': None, 'NREG': 2, 'YCH': 3}, cfg=dict(fp='havoc'), split=3, ir_srcs=ALL_IR, native_srcs=ALL_IR, native_flags=['-llemon']),
     dict(name='H16B', src='C16_density.cpp', covers=['built', 'end'], defines={'VCAP': 8, 'H16B': None, 'NOPS': 3}, cfg=dict(fp='havoc'), ir_srcs=ALL_IR, native_srcs=ALL_IR, native_flags=['-llemon'],
          thorough=dict(defines={'NOPS': 4})),
+    dict(name='H16F', src='C16_density.cpp', covers=['grid built', 'end'], defines={'VCAP': 10, 'H16F': None}, cfg=dict(fp='exact'), ir_srcs=ALL_IR, native_srcs=ALL_IR, native_flags=['-llemon']),
     dict(name='H16RO', src='C16_density.cpp', covers=['distributed', 'end'], defines={'VCAP': 8, 'H16R': None, 'OVERFULL': None}, cfg=dict(fp='havoc', time_budget=40), ir_srcs=ALL_IR, native_srcs=ALL_IR, native_flags=['-llemon']),
     dict(name='H16R', src='C16_density.cpp', covers=['distributed', 'end'], defines={'VCAP': 8, 'H16R': None}, cfg=dict(fp='havoc', time_budget=40), ir_srcs=ALL_IR, native_srcs=ALL_IR, native_flags=['-llemon']),
     dict(name='H16C', src='C16_density.cpp', tiers=('thorough',), covers=['built'], defines={'VCAP': 8, 'H16C': None}, cfg=dict(fp='havoc', time_budget=200), split=5, ir_srcs=ALL_IR, native_srcs=ALL_IR, native_flags=['-llemon'],
@@ -209,7 +211,7 @@ P['C16'] = dict(
 P['C17'] = dict(
   design_ref='DESIGN.md section 3 C17',
   level_text='The solve itself is Eigen (environment); what the repository owns is the linear system. Solver-checked on the real NetModel / MatrixCreator code with symbolic real-valued weight and pin offsets: for two-pin nets in the initial star model (movable-movable and movable-fixed) the net model stores the weight unchanged and the assembled entries are exactly w, -w and w*(offset difference) - the system whose solution is the weighted least-squares optimum, so the pull of a net is proportional to its (fractional) weight. Float arithmetic in the linear error model with rounding treated as a function of the exact expression.',
-  text=dict(bounds=dict(quick='1 net, 2 pins (one optionally fixed), weight symbolic in [2^-7, 64], offsets in [-1000,1000]; H17C: cell 0 with a weighted fixed-pin net, cell 1 without nets, penalties of strength 0 or symbolic in [0.01,2] on either, added or not: finalize() puts its constant 1e-8 regulariser only on rows without a diagonal contribution (the system-level condition for scaling invariance)', thorough='same'),
+  text=dict(bounds=dict(quick='1 net, 2 pins (one optionally fixed), weight symbolic in [2^-7, 64], offsets in [-1000,1000]; H17C: cell 0 with a weighted fixed-pin net, cell 1 without nets, penalties of strength 0 or symbolic in [0.01,2] on either, added or not: finalize() puts its constant 1e-8 regulariser only on rows without a diagonal contribution (the system-level condition for scaling invariance), and MatrixCreator::solve hands the caller tolerance and iteration limit to the solver unchanged', thorough='same'),
             outside='entry-wise power-of-two scaling invariance of every net model (needs bit-exact float reasoning: declined, harness H17A kept in the source; only the regulariser condition H17C is checked); nets of degree > 2, B2B/clique/light-star weights 1/distance; penalties; the tolerance clause (conjugate-gradient behaviour)'),
   assumptions=STD_ASSUME + [EIGEN_ASSUME, 'float rounding modelled as a function fl(e)=e+eta(e), |eta|<=2^-24 M(e)'],
   harnesses=[
@@ -246,7 +248,7 @@ P['C08'] = dict(
 P['C06'] = dict(
   design_ref='DESIGN.md section 3 C06',
   level_text='The conjugate-gradient solve is Eigen (environment contract: finite values). Decided on the real code: (E) Circuit::placeGlobal end to end on a tiny circuit with every float value unconstrained: it completes without raising an error on every explored outcome of the float comparisons, issues lower-bound and upper-bound callbacks, and no assert/contract/UB of the integer skeleton fires; (C) blendPlacement + GlobalPlacer::exportPlacement with symbolic coordinates up to 8e6: exact at blending 0 and 1, equal to (1-w)LB + w UB up to float rounding otherwise, exported integer coordinate = centre minus half size, rounded, and the float-to-int conversion cannot overflow (linear float error model).',
-  text=dict(bounds=dict(quick='E: 2 movable + 1 fixed cell, 4 rows, 1 step; C: 1 cell, blending in {0, 1, 0.99, 0.5, 1.5, -0.5}, |coordinates| <= 8e6, sizes <= 4096', thorough='E: 2 steps'),
+  text=dict(bounds=dict(quick='E: 2 movable + 1 fixed cell, 4 rows, 3 nets of degree 1 (dangling, on a movable cell), 2 and 3, 1 step; C: 1 cell, orientation N / W / FE (centre refers to the placed size), blending in {0, 1, 0.99, 0.5, 1.5, -0.5}, |coordinates| <= 8e6, sizes <= 4096', thorough='E: 2 steps'),
             outside='"every upper-bound coordinate inside the placement area" and "no NaN": need the float values of spreadCells / the CG solve (declined: float kernel not closed by the error model, Eigen internals); more cells and steps'),
   assumptions=STD_ASSUME + [EIGEN_ASSUME, BOOST_ASSUME],
   harnesses=[
@@ -264,6 +266,8 @@ P['C07'] = dict(
   harnesses=[
     dict(name='H07S', src='C07_kernels.cpp', covers=['end'], defines={'VCAP': 1202, 'H07S': None}, cfg=dict(fp='havoc', max_steps=20000000), ir_srcs=ALL_IR, native_srcs=ALL_IR, native_flags=['-llemon']),
     dict(name='H07W', src='C07_kernels.cpp', covers=['end'], defines={'VCAP': 6, 'H07W': None}, cfg=dict(fp='havoc'), ir_srcs=ALL_IR, native_srcs=ALL_IR, native_flags=['-llemon']),
+    dict(name='H07E', src='C19_invalid.cpp', covers=['end'], defines={'VCAP': 6, 'H19E': None}, cfg=dict(fp='exact'), ir_srcs=ALL_IR, native_srcs=ALL_IR, native_flags=['-llemon']),
+    dict(name='H07U', src='C14_transport1d.cpp', covers=['precondition holds', 'end'], defines={'VCAP': 12, 'NS': 2, 'NK': 2, 'QMAX': 2, 'FAMILY_A': None}, cfg=dict(fp='exact')),
     dict(name='H07T', src='C13_transport.cpp', covers=['precondition holds', 'end'], defines={'VCAP': 6, 'NS': 2, 'NK': 2, 'QMAX': 2, 'FAMILY_A': None}, cfg=dict(fp='exact')),
     dict(name='H07R', src='C11_idempotent.cpp', covers=['end'], defines={'VCAP': 8, 'H11B': None, 'NC': 2}, cfg=dict(fp='havoc'), split=2, ir_srcs=ALL_IR, native_srcs=ALL_IR, native_flags=['-llemon']),
     dict(name='H07D', src='C10_busy.cpp', covers=['placement call ended', 'end'], defines={'VCAP': 8, 'NDEBUG': None}, cfg=dict(fp='havoc'), ir_srcs=ALL_IR, native_srcs=ALL_IR, native_flags=['-llemon']),
